@@ -180,9 +180,25 @@ def within(num, exact, p):
     return num.finite() and abs(num.frac - exact) <= Fraction(1, 10**p)
 
 
-def rate_ok(F, prop_fmt, what, num, c, t, scale, p, zero_value, lo=0):
-    """C13 clauses for one printed rate. scale = 1 or 100."""
+def decimals_of(text):
+    """number of decimals a printed plain decimal carries: ('12.50' -> 2 printed, 1 significant)"""
+    t = text.strip()
+    if "e" in t.lower() or "." not in t:
+        return 0, 0
+    frac = t.split(".", 1)[1]
+    return len(frac), len(frac.rstrip("0"))
+
+
+def rate_ok(F, prop_fmt, what, num, c, t, scale, p, zero_value, lo=0, dec=None):
+    """C13 clauses for one printed rate. scale = 1 or 100.
+    dec = "eq": the format prints exactly p decimals ({:.p$}); "le": at most p significant decimals (a rounded float
+    printed in shortest form).  This is what makes the requested --precision observable even where a coarser or finer
+    rounding would still be 'close'."""
     fmt = prop_fmt
+    if dec and num.finite():
+        printed, signif = decimals_of(num.text)
+        if (dec == "eq" and printed != p) or (dec == "le" and signif > p):
+            F.add("C13", fmt, "rate is printed with the requested precision", "%s = %s, requested precision %d" % (what, num.text, p))
     if not num.finite():
         F.add("C13", fmt, "rate is a finite number", "%s printed as %r (covered=%d total=%d)" % (what, num.text, c, t), K_NAN if t == 0 and fmt in ("markdown", "ade") else None)
         return
@@ -320,7 +336,7 @@ def covdir_node_figs(F, pth, n, p):
         F.add("C13", "covdir", "covered <= total", "%s: %d > %d" % (pth, cov_, tot))
     if cov_ + mis != tot:
         F.add("C13", "covdir", "covered + missed = total", "%s: %d + %d != %d" % (pth, cov_, mis, tot))
-    rate_ok(F, "covdir", "coveragePercent of %s" % (pth,), D.as_num(n["coveragePercent"]), cov_, tot, 100, p, 0)
+    rate_ok(F, "covdir", "coveragePercent of %s" % (pth,), D.as_num(n["coveragePercent"]), cov_, tot, 100, p, 0, dec="le")
 
 
 def ade_ranges(t):
@@ -409,11 +425,11 @@ def o_markdown(F, data, ts, p):
             F.add("C03", "markdown", "missed ranges cover exactly the instrumented lines with count 0", "%s: ranges %s missed %s" % (t["rel"], r["ranges"], sorted(missed)))
         if r["covered"] > r["total"]:
             F.add("C13", "markdown", "covered <= total", "%s" % t["rel"])
-        rate_ok(F, "markdown", "coverage of %s" % t["rel"], D.pct_text(r["coverage"]), r["covered"], r["total"], 100, p, None)
+        rate_ok(F, "markdown", "coverage of %s" % t["rel"], D.pct_text(r["coverage"]), r["covered"], r["total"], 100, p, None, dec="eq")
     if total is None:
         F.add("C13", "markdown", "total line present", "missing")
     else:
-        rate_ok(F, "markdown", "Total coverage", D.pct_text(total), sum(r["covered"] for r in rows), sum(r["total"] for r in rows), 100, p, None)
+        rate_ok(F, "markdown", "Total coverage", D.pct_text(total), sum(r["covered"] for r in rows), sum(r["total"] for r in rows), 100, p, None, dec="eq")
     return rows, total
 
 
@@ -524,6 +540,7 @@ def o_html(F, pages, ts, p, branch):
         hd["files"][t["rel"]] = {"rows": [v for _, v, _ in rows], "summary": sm}
         if sorted(sm) != sorted(kinds):
             F.add("C13", "html", "summary items", "%s: %s" % (name, sorted(sm)))
+            F.add("C03", "html", "the file page shows line and function figures and, exactly when branch coverage is enabled, branch figures", "%s: %s, branch enabled: %s" % (name, sorted(sm), branch))
         for k in kinds:
             if k not in sm:
                 continue
@@ -630,6 +647,8 @@ def o_html(F, pages, ts, p, branch):
         hd["covjson"] = num
         if not num.finite() or abs(num.frac - exact) > Fraction(1, 10**p):
             F.add("C13", "html", "coverage.json figure derives from the global totals", "%s vs %d/%d" % (num.text, c, n))
+        elif decimals_of(num.text)[0] != p:
+            F.add("C13", "html", "rate is printed with the requested precision", "coverage.json message %s, requested precision %d" % (num.text, p))
     else:
         F.add("C13", "html", "coverage.json present", "missing")
     badges = [k for k in pages if k.startswith("badges/")]
@@ -648,7 +667,7 @@ def o_html(F, pages, ts, p, branch):
 def html_figs(F, what, c, n, pct, p):
     if c > n:
         F.add("C13", "html", "covered <= total", "%s: %d > %d" % (what, c, n))
-    rate_ok(F, "html", what, pct, c, n, 100, p, 100)
+    rate_ok(F, "html", what, pct, c, n, 100, p, 100, dec="le")
 
 
 def evaluate_case(case, res):
@@ -716,6 +735,22 @@ def classes_of(case):
     return out
 
 
+def report_findings(chk, F, prop, known, stats, replay, label):
+    """findings of `prop`: inside a known class -> KNOWN-FINDING (once) and counted; any other -> one violation for the case"""
+    bad = []
+    for it in F.items:
+        if it["property"] != prop:
+            continue
+        if it["known"] and it["known"] in known:
+            chk.known(known[it["known"]])
+            stats["findings_in_known_classes"][it["known"]] = stats["findings_in_known_classes"].get(it["known"], 0) + 1
+            continue
+        bad.append(it)
+    if bad:
+        chk.violation(dict(replay, clause=bad[0]["clause"], format=bad[0]["format"], findings=bad[:6]), tag=label)
+    return bad
+
+
 def run_cases(chk, cases, prop, label):
     """run the implementation on the cases, evaluate both oracles, report the findings of `prop`.  Returns (impl results, decoded per case)."""
     impl = vlib.run_impl("report", cases, chk.pid, parallel=4, extra_env={"GIT_DIR": "/nonexistent"})
@@ -730,18 +765,7 @@ def run_cases(chk, cases, prop, label):
             continue
         F, dec = evaluate_case(case, res)
         decs.append(dec)
-        bad = []
-        for it in F.items:
-            if it["property"] != prop:
-                continue
-            if it["known"] and it["known"] in known:
-                chk.known(known[it["known"]])
-                stats["findings_in_known_classes"][it["known"]] = stats["findings_in_known_classes"].get(it["known"], 0) + 1
-                continue
-            bad.append(it)
-        if bad:
-            chk.violation({"kind": "oracle", "engine": "report", "case": case, "clause": bad[0]["clause"], "format": bad[0]["format"],
-                           "findings": bad[:6]}, tag=label)
+        report_findings(chk, F, prop, known, stats, {"kind": "oracle", "engine": "report", "case": case}, label)
     return impl, decs, stats
 
 
